@@ -162,7 +162,7 @@ impl Directive {
             Directive::Byte => {
                 if let DirectiveOps::OpList(args) = opts {
                     if args.len() > 1 {
-                        bail!("Too many arguments for {}", self);
+                        bail!("Too many arguments for {}, {}", self, point);
                     }
                     if let Some(Operand::E(expr)) = args.get(0) {
                         if let Expr::Const(n) = expr {
